@@ -62,6 +62,10 @@ type declModel struct {
 	allowedWithin []hcl.Range
 	blocks        map[hcl.Range]*hclsyntax.Block
 	parents       map[hcl.Range]*hclsyntax.Body // body holding the block of that range
+	// value ranges of attributes whose constraint is a plain Reference{Address}: the
+	// traversal written there is a declaration of its own (top level), and since the
+	// constraint carries no type the attribute contributes nothing to an inferred body
+	plainRefValues map[hcl.Range]string
 }
 
 func blockAddress(b *hclsyntax.Block, bs *schema.BlockSchema) (string, bool) {
@@ -108,6 +112,14 @@ func (m *declModel) body(body *hclsyntax.Body, e *model.Eff, depth int) {
 			m.allowed[body.Range()] = true
 			m.allowed[attr.SrcRange] = true
 			continue
+		}
+		if as != nil {
+			if rc, ok := as.Constraint.(schema.Reference); ok && rc.Address != nil {
+				if m.plainRefValues == nil {
+					m.plainRefValues = map[hcl.Range]string{}
+				}
+				m.plainRefValues[attr.Expr.Range()] = name
+			}
 		}
 		if as != nil && hasAddressableRef(as.Constraint, 0) {
 			// a Reference constraint with an Address makes the written traversal itself a target
@@ -333,6 +345,9 @@ func (p c09) check(rc Recipe, st State, valid bool, rep *runner.Reporter) {
 				continue
 			}
 			m.body(body, model.EffRoot(pc.Schema), 0)
+			if len(pc.Schema.TargetableAs) > 0 {
+				m.allowed[body.Range()] = true // a targetable root body spans the body itself
+			}
 		}
 		// ---- structural invariants on every tree
 		var walk func(ts reference.Targets, parent *reference.Target, depth int)
@@ -343,6 +358,11 @@ func (p c09) check(rc Recipe, st State, valid bool, rep *runner.Reporter) {
 				// a traversal declared as target through Reference{Address} keeps its own
 				// absolute address wherever it is written (type-less, no definition range)
 				declaredByReference := t.DefRangePtr == nil && t.Type == cty.NilType && len(t.NestedTargets) == 0
+				if parent != nil && declaredByReference && parent.DefRangePtr != nil && t.RangePtr != nil {
+					if an, ok := m.plainRefValues[*t.RangePtr]; ok {
+						viol("NESTED reference-declared-target-below-inferred-body", fmt.Sprintf("the traversal written as value of %q (plain Reference constraint, no type) is nested as %s below the body target %s: only type-aware attributes contribute to an inferred body", an, t.Addr, parent.Addr))
+					}
+				}
 				if parent != nil && !declaredByReference {
 					stepKind := "?"
 					if len(t.Addr) > 0 {
